@@ -272,6 +272,9 @@ def check_seq(case):
     for k, stp in enumerate(case['steps']):
         new = perturb(cur, stp['db'], stp['dd'])
         p_new = obj.params(np, new, Objective)
+        # the property is stated for a positive-definite Hessian at the current solution
+        wH = onp.linalg.eigvalsh(onp.asarray(fh(x, obj.params(np, cur, Objective))))
+        pd = bool(wH[0] > 1e-8 * max(abs(wH[-1]), 1e-300))
         try:
             with capture_stdout():
                 if stp['driver'] == 'nes':
@@ -292,7 +295,12 @@ def check_seq(case):
             break
         xn = onp.asarray(xn)
         if not onp.all(onp.isfinite(xn)):
-            fails.append(Failure('finite', 'load step %d returned a non-finite point' % k, **data))
+            if flag:
+                fails.append(Failure('honest-flag', 'load step %d: success reported for a non-finite point' % k, **data))
+            elif pd:
+                fails.append(Failure('finite', 'load step %d returned a non-finite point' % k, **data))
+            else:
+                classes.add('singular-hessian-at-start')       # outside the stated domain: nothing claimed
             break
         g = onp.linalg.norm(onp.asarray(fg(np.array(xn), p_new)))
         if flag and onp.abs(xn).max() < 999 and not g < tol * (1 + 1e-9):
